@@ -15,7 +15,7 @@ RULE = (
     "history of >= 2 calls or a cleaned file compared; distinct = distinct event digests among those."
 )
 PROBES = [">=3-blocks", "mask-touches-first-channel", "mask-touches-last-channel", "empty-final-mask", "history>=3",
-          "range-exactly-on-channel-centre", "method:mad", "method:iqrm", "all-equal-vector", "file-roundtrip", "clean:two-gulps",
+          "range-exactly-on-channel-centre", "range-end-on-a-centre-not-exact-in-float32", "method:mad", "method:iqrm", "all-equal-vector", "file-roundtrip", "clean:two-gulps",
           "clean:default-mask-value", "fault-raised", "sub-byte"]
 COMPONENTS = {
     "real": ["sigpyproc.core.rfi.RFIMask (apply_mask/apply_method/apply_funcn/to_file/from_file)", "double_mad_mask / iqrm_mask",
